@@ -12,8 +12,10 @@ require (
 )
 
 require (
+	github.com/ajstarks/svgo v0.0.0-20211024235047-1546f124cd8b // indirect
 	github.com/dhconnelly/rtreego v1.2.0 // indirect
 	github.com/golang/freetype v0.0.0-20170609003504-e2365dfdc4a0 // indirect
+	github.com/llgcode/draw2d v0.0.0-20240627062922-0ed1ff131195 // indirect
 	github.com/qmuntal/opc v0.7.12 // indirect
 	golang.org/x/image v0.22.0 // indirect
 )
